@@ -568,8 +568,9 @@ fn c13_position(rep: &Reporter, p: &Pos, strings: &[String], calls: &AtomicU64, 
     for s in strings {
         n += c13_case(rep, p, &fen, &mut b, &before, s, &legal, &pseudo_illegal);
     }
-    classes[0].fetch_add(legal.len() as u64, Ordering::Relaxed);
-    classes[1].fetch_add(pseudo_illegal.len() as u64, Ordering::Relaxed);
+    let in_strings: HashSet<&str> = strings.iter().map(|s| s.as_str()).collect();
+    classes[0].fetch_add(legal.iter().filter(|(u, _)| in_strings.contains(u.as_str())).count() as u64, Ordering::Relaxed);
+    classes[1].fetch_add(pseudo_illegal.iter().filter(|u| in_strings.contains(u.as_str())).count() as u64, Ordering::Relaxed);
     calls.fetch_add(n, Ordering::Relaxed);
 }
 
@@ -692,6 +693,30 @@ pub fn run_c13(tier: Tier) -> i32 {
     for extra in ["E2E4", " e2e4", "e2e4 ", " e2e4 ", "e2e4qq", "e7e8Q", "e2-e4", "e2e4\n", "\te2e4", "0000", "e2e", "é2e4", "e2e4é", "a7a8=q", "O-O", "e1g1 e8g8"] {
         malformed.push(extra.to_string());
     }
+    // the board continued beyond its edges: square groups over files `, a..h, i, A, H, z, 0 and ranks
+    // 0, 1..8, 9, ':', '/', 'a' — every pair of groups in which at least one is off the board (the
+    // on-board pairs are the 64 x 64 family above), with and without a promotion letter
+    let offboard: Vec<String> = {
+        let files = ['`', 'a', 'b', 'c', 'd', 'e', 'f', 'g', 'h', 'i', 'A', 'H', 'z', '0'];
+        let ranks = ['0', '1', '2', '3', '4', '5', '6', '7', '8', '9', ':', '/', 'a'];
+        let on_board = |f: char, r: char| ('a'..='h').contains(&f) && ('1'..='8').contains(&r);
+        let mut v = Vec::new();
+        for f1 in files {
+            for r1 in ranks {
+                for f2 in files {
+                    for r2 in ranks {
+                        if on_board(f1, r1) && on_board(f2, r2) {
+                            continue;
+                        }
+                        for suf in ["", "q"] {
+                            v.push(format!("{}{}{}{}{}", f1, r1, f2, r2, suf));
+                        }
+                    }
+                }
+            }
+        }
+        v
+    };
     let calls = AtomicU64::new(0);
     let classes: [AtomicU64; 3] = Default::default();
     let lists_run = AtomicU64::new(0);
@@ -701,6 +726,9 @@ pub fn run_c13(tier: Tier) -> i32 {
     par_map(&idx, |&i| {
         let p = &positions[i];
         c13_position(&rep, p, &strings, &calls, &classes);
+        if i % 3 == 0 || tier == Tier::Thorough {
+            c13_position(&rep, p, &offboard, &calls, &classes);
+        }
         if i < n_mal_positions {
             c13_position(&rep, p, &malformed, &calls, &classes);
         }
@@ -715,6 +743,7 @@ pub fn run_c13(tier: Tier) -> i32 {
     cov.set("positions", json!(positions.len()));
     cov.set("move_strings_per_position", json!(strings.len()));
     cov.set("malformed_strings", json!(malformed.len()));
+    cov.set("off_board_square_strings_per_position", json!(offboard.len()));
     cov.set("positions_with_malformed_sweep", json!(n_mal_positions.min(positions.len())));
     cov.set("legal_strings_judged", json!(classes[0].load(Ordering::Relaxed)));
     cov.set("pseudo_legal_but_illegal_strings_judged", json!(classes[1].load(Ordering::Relaxed)));
